@@ -6,8 +6,20 @@
    get_fail_on_missing_requested, get_entity_categories incl. the `for ... else`
    (the key "" always ends up in the restriction dict), Policy.filter, Policy.restrict,
    Assertion.apply_policy, mdstore.attribute_requirement / subject_id_requirement,
-   Server.setup_assertion (MissingValue swallowed when best_effort) and the literal
-   True that the non-PEFIM branch of Server._authn_response passes as best_effort.
+   Server.setup_assertion and the non-PEFIM branch of Server._authn_response.
+
+   After the repairs a4e3dbdd / 47cc754e (findings C10-F1 / C10-F2):
+     * Policy.filter / Policy.restrict / Assertion.apply_policy take an optional fail_on_missing
+       that, when not None, replaces the section's fail_on_missing_requested;
+     * Server._authn_response hands the caller's best_effort to setup_assertion; there a
+       MissingValue is re-raised when best_effort is false (create_authn_response answers with an
+       error response) and with best_effort the policy is applied AGAIN with fail_on_missing=False:
+       what that second pass lets through is released (it can itself raise MissingValue, from
+       _filter_values(must=True): that propagates and is an error response too);
+     * get_entity_categories without a (truthy) metadata store: the requester is in no category
+       (ecs = []), the loop over the category maps runs all the same.
+   The behaviour before the repairs is kept at the end of the file as *_v0 definitions
+   (Proofs.server_release_v0_refuted / nostore_v0_refuted).
 
    External things that enter as DATA (never as axioms):
      rmatch r v   = bool(re.compile(r).match(v))            (regex engine: trusted)
@@ -319,7 +331,10 @@ Section WithData.
     let attrs := entry_attrs req ecs e in
     (if negb (is_nil attrs) && ec_no_agg e then [] else acc) ++ attrs ++ [""].
 
-  (* ecs = None: the Policy has no (truthy) metadata store *)
+  (* ecs = None: the Policy has no (truthy) metadata store: the requester is in no category *)
+  Definition ecs_of (ecs : option (list string)) : list string :=
+    match ecs with Some l => l | None => [] end.
+
   Definition get_ec (s : option section) (ecs : option (list string)) (req : list reqattr)
     : result (list string) :=
     match s with
@@ -329,11 +344,7 @@ Section WithData.
         | [] => Ok []
         | names =>
             match req_names req with
-            | Ok rn =>
-                match ecs with
-                | None => Ok []
-                | Some ecs => Ok (fold_left (ec_step rn ecs) (maps_of names) [])
-                end
+            | Ok rn => Ok (fold_left (ec_step rn (ecs_of ecs)) (maps_of names) [])
             | _ => Crash
             end
         end
@@ -342,15 +353,20 @@ Section WithData.
   Definition names_restr (l : list string) : restr := map (fun n => (n, None)) l.
 
   (* ---- Policy.filter ------------------------------------------------------------------- *)
+  (* self.get_fail_on_missing_requested(sp) if fail_on_missing is None else fail_on_missing *)
+  Definition eff_fail (fo : option bool) (sec : option section) : bool :=
+    match fo with Some b => b | None => get_fail sec end.
+
+  (* fo = the fail_on_missing argument *)
   Definition pfilter (a : ava) (p : policy) (sp : string) (ecs : option (list string))
-             (ra : option string) (req opt : list reqattr) : result ava :=
+             (ra : option string) (req opt : list reqattr) (fo : option bool) : result ava :=
     let sec := applicable p sp ra in
     match get_ec sec ecs req with
     | Ok er =>
         let r1 := match er with
                   | _ :: _ => Ok (fava a (Some (names_restr er)))
                   | [] => if is_nil req && is_nil opt then Ok a
-                          else filter_on_attributes a req opt (get_fail sec)
+                          else filter_on_attributes a req opt (eff_fail fo sec)
                   end in
         match r1 with
         | Ok s => Ok (fava s (get_ar sec))
@@ -405,8 +421,9 @@ Section WithData.
     match md with Some m => md_ra m | None => None end.
 
   (* ---- Policy.restrict -------------------------------------------------------------------- *)
-  Definition restrict (a : ava) (p : policy) (sp : string) (md : option mdinfo) : result ava :=
-    pfilter a p sp (eff_ecs md) (eff_ra md) (eff_required md) (eff_optional md).
+  Definition restrict (a : ava) (p : policy) (sp : string) (md : option mdinfo) (fo : option bool)
+    : result ava :=
+    pfilter a p sp (eff_ecs md) (eff_ra md) (eff_required md) (eff_optional md) fo.
 
   (* ---- Assertion.apply_policy: result and the Assertion dict afterwards ------------------ *)
   Definition self_after (self : ava) (r : result ava) : ava :=
@@ -416,24 +433,36 @@ Section WithData.
     end.
 
   (* ---- Server.setup_assertion: what goes into the AttributeStatement --------------------- *)
+  (* ast.apply_policy(sp, policy); on MissingValue (raised inside Policy.restrict, before the
+     Assertion dict is touched): re-raise unless best_effort, else
+     ast.apply_policy(sp, policy, fail_on_missing=False), whose exceptions propagate.
+     Missing = MissingValue leaves setup_assertion = Server.create_authn_response answers with an
+     error response (no assertion). *)
   Definition setup_assertion (best_effort : bool) (a : ava) (p : policy) (sp : string)
              (md : option mdinfo) : result ava :=
-    match restrict a p sp md with
+    match restrict a p sp md None with
     | Ok out => Ok (self_after a (Ok out))
-    | Missing => if best_effort then Ok a else Missing      (* error response *)
+    | Missing =>
+        if best_effort
+        then match restrict a p sp md (Some false) with
+             | Ok out => Ok (self_after a (Ok out))
+             | Missing => Missing
+             | Crash => Crash
+             end
+        else Missing
     | Crash => Crash
     end.
 
-  (* Server._authn_response, non-PEFIM branch: best_effort is the literal True *)
-  Definition authn_response := setup_assertion true.
+  (* Server._authn_response, non-PEFIM branch: best_effort is the caller's (default False) *)
+  Definition authn_response (best_effort : bool) := setup_assertion best_effort.
 
   (* ---- entry points exercised by the correspondence ---------------------------------------- *)
   Inductive entry :=
-  | EFoa (fail : bool) (req opt : list reqattr)      (* filter_on_attributes *)
-  | EFilter (req opt : list reqattr)                 (* Policy.filter *)
-  | ERestrict                                        (* Policy.restrict *)
-  | EApply                                           (* Assertion.apply_policy *)
-  | EServer.                                         (* Server.create_authn_response *)
+  | EFoa (fail : bool) (req opt : list reqattr)              (* filter_on_attributes *)
+  | EFilter (req opt : list reqattr) (fo : option bool)      (* Policy.filter(.., fail_on_missing=fo) *)
+  | ERestrict (fo : option bool)                             (* Policy.restrict(.., fail_on_missing=fo) *)
+  | EApply (fo : option bool)                                (* Assertion.apply_policy(.., fail_on_missing=fo) *)
+  | EServer (best_effort : bool).                            (* Server.create_authn_response(.., best_effort=) *)
 
   Record input := {
     i_ident : ava;
@@ -444,7 +473,7 @@ Section WithData.
   }.
 
   Record output := {
-    o_out : result ava;         (* what is released / MissingValue / other exception *)
+    o_out : result ava;         (* what is released / MissingValue or error response / other exception *)
     o_caller : ava;             (* the caller's identity data after the call *)
     o_self : option ava         (* apply_policy: the Assertion dict after the call *)
   }.
@@ -454,13 +483,71 @@ Section WithData.
     let a := i_ident x in
     match i_entry x with
     | EFoa fail req opt => {| o_out := filter_on_attributes a req opt fail; o_caller := a; o_self := None |}
-    | EFilter req opt =>
-        {| o_out := pfilter a (i_pol x) (i_sp x) (eff_ecs (i_md x)) (eff_ra (i_md x)) req opt;
+    | EFilter req opt fo =>
+        {| o_out := pfilter a (i_pol x) (i_sp x) (eff_ecs (i_md x)) (eff_ra (i_md x)) req opt fo;
            o_caller := a; o_self := None |}
-    | ERestrict => {| o_out := restrict a (i_pol x) (i_sp x) (i_md x); o_caller := a; o_self := None |}
-    | EApply =>
-        let r := restrict a (i_pol x) (i_sp x) (i_md x) in
+    | ERestrict fo => {| o_out := restrict a (i_pol x) (i_sp x) (i_md x) fo; o_caller := a; o_self := None |}
+    | EApply fo =>
+        let r := restrict a (i_pol x) (i_sp x) (i_md x) fo in
         {| o_out := r; o_caller := a; o_self := Some (self_after a r) |}
-    | EServer => {| o_out := authn_response a (i_pol x) (i_sp x) (i_md x); o_caller := a; o_self := None |}
+    | EServer be => {| o_out := authn_response be a (i_pol x) (i_sp x) (i_md x); o_caller := a; o_self := None |}
+    end.
+
+  (* ==== the code BEFORE the repairs a4e3dbdd / 47cc754e (kept for the refutations) ============ *)
+  (* 47cc754e: `if mds:` guarded the whole loop: without a store the restriction dict stayed empty *)
+  Definition get_ec_v0 (s : option section) (ecs : option (list string)) (req : list reqattr)
+    : result (list string) :=
+    match ecs with
+    | None => match get_ec s ecs req with Ok _ => Ok [] | r => r end
+    | Some _ => get_ec s ecs req
+    end.
+
+  (* no fail_on_missing parameter *)
+  Definition pfilter_v0 (a : ava) (p : policy) (sp : string) (ecs : option (list string))
+             (ra : option string) (req opt : list reqattr) : result ava :=
+    let sec := applicable p sp ra in
+    match get_ec_v0 sec ecs req with
+    | Ok er =>
+        let r1 := match er with
+                  | _ :: _ => Ok (fava a (Some (names_restr er)))
+                  | [] => if is_nil req && is_nil opt then Ok a
+                          else filter_on_attributes a req opt (get_fail sec)
+                  end in
+        match r1 with
+        | Ok s => Ok (fava s (get_ar sec))
+        | Missing => Missing
+        | Crash => Crash
+        end
+    | _ => Crash
+    end.
+
+  Definition restrict_v0 (a : ava) (p : policy) (sp : string) (md : option mdinfo) : result ava :=
+    pfilter_v0 a p sp (eff_ecs md) (eff_ra md) (eff_required md) (eff_optional md).
+
+  (* a4e3dbdd: MissingValue swallowed when best_effort - the Assertion kept the unfiltered identity *)
+  Definition setup_assertion_v0 (best_effort : bool) (a : ava) (p : policy) (sp : string)
+             (md : option mdinfo) : result ava :=
+    match restrict_v0 a p sp md with
+    | Ok out => Ok (self_after a (Ok out))
+    | Missing => if best_effort then Ok a else Missing
+    | Crash => Crash
+    end.
+
+  (* ... and _authn_response passed the literal True whatever the caller said *)
+  Definition authn_response_v0 (best_effort : bool) := setup_assertion_v0 true.
+
+  (* the fail_on_missing arguments did not exist: only fo = None was expressible *)
+  Definition run_v0 (x : input) : output :=
+    let a := i_ident x in
+    match i_entry x with
+    | EFoa fail req opt => {| o_out := filter_on_attributes a req opt fail; o_caller := a; o_self := None |}
+    | EFilter req opt _ =>
+        {| o_out := pfilter_v0 a (i_pol x) (i_sp x) (eff_ecs (i_md x)) (eff_ra (i_md x)) req opt;
+           o_caller := a; o_self := None |}
+    | ERestrict _ => {| o_out := restrict_v0 a (i_pol x) (i_sp x) (i_md x); o_caller := a; o_self := None |}
+    | EApply _ =>
+        let r := restrict_v0 a (i_pol x) (i_sp x) (i_md x) in
+        {| o_out := r; o_caller := a; o_self := Some (self_after a r) |}
+    | EServer be => {| o_out := authn_response_v0 be a (i_pol x) (i_sp x) (i_md x); o_caller := a; o_self := None |}
     end.
 End WithData.
